@@ -14,6 +14,7 @@ import rx
 from ..common import Check, Outcome, Snap, subscribe, subscribe2, bootstrap, norm, WORK
 
 rs = bootstrap()
+from ..progs import call          # noqa: E402  (positional / keyword calling conventions, see progs.call)
 import pyarrow as pa                     # noqa: E402
 import pyarrow.parquet as pq             # noqa: E402
 
@@ -136,10 +137,11 @@ class C20(Check):
             import numpy
             kw['batch_size'] = numpy.int64(b)       # a batch size computed with numpy
             out.tags.append('numpy-typed-batch-size')
+        kwl = [(k_, kw[k_]) for k_ in ('schema', 'batch_size', 'row_group_size', 'compression')]     # documented order
         if case['target'] == 'path' and n % 2:
             from ..progs import dump_pushed
             out.tags.append('pushed-source')
-            w = dump_pushed(lambda o: o.pipe(P.dump_to_file(path, **kw)), src_rows, path, out, 'parquet.dump_to_file')
+            w = dump_pushed(lambda o: o.pipe(call(P.dump_to_file, [('filename', path)] + kwl)), src_rows, path, out, 'parquet.dump_to_file')
             if out.failures:
                 return out
         elif case['target'] == 'path' and n % 4 == 2:
@@ -156,17 +158,17 @@ class C20(Check):
                 if len(attempts) == 1:
                     return rx.from_(src_rows[:bad_at] + [bad] + src_rows[bad_at:])
                 return rx.from_(src_rows)
-            dump = rx.defer(source).pipe(P.dump_to_file(path, **kw))
+            dump = rx.defer(source).pipe(call(P.dump_to_file, [('filename', path)] + kwl))
             first = subscribe(dump, Snap())
             # (whether a malformed row is rejected is not part of the property: if the first attempt went through,
             # the second one is judged all the same)
             out.observed['first_attempts_that_failed'] += int(first.err is not None)
             w = subscribe(dump, Snap())
         elif case['target'] == 'path':
-            w = subscribe(rx.from_(src_rows).pipe(P.dump_to_file(path, **kw)), Snap())
+            w = subscribe(rx.from_(src_rows).pipe(call(P.dump_to_file, [('filename', path)] + kwl)), Snap())
         else:
             with open(path, 'wb') as f:
-                w = subscribe(rx.from_(src_rows).pipe(P.dump_to_file(f, **kw)), Snap())
+                w = subscribe(rx.from_(src_rows).pipe(call(P.dump_to_file, [('filename', f)] + kwl)), Snap())
         if w.err is not None or not w.done:
             return out.fail('dump_to_file-failed', error=repr(w.err), done=w.done)
         out.observed['files_written'] += 1
@@ -189,10 +191,10 @@ class C20(Check):
             return out
         for lb in case['load_batches']:
             if case['target'] == 'path':
-                g = subscribe2(P.load_from_file(path, batch_size=lb), out, 'load_from_file', same=lambda x, y: repr(x) == repr(y), abuse=(lb == case['load_batches'][0]))
+                g = subscribe2(call(P.load_from_file, [('filename', path), ('batch_size', lb)]), out, 'load_from_file', same=lambda x, y: repr(x) == repr(y), abuse=(lb == case['load_batches'][0]))
             else:
                 with open(path, 'rb') as f:
-                    g = subscribe(P.load_from_file(f, batch_size=lb), Snap())
+                    g = subscribe(call(P.load_from_file, [('filename', f), ('batch_size', lb)]), Snap())
             if g.err is not None or not g.done:
                 return out.fail('load_from_file-failed', error=repr(g.err), done=g.done, load_batch=lb)
             out.observed['loads'] += 1
